@@ -427,8 +427,40 @@ struct HofPass<'a> {
     ret_is_option: bool,
     closure_depth: usize,
     optmap: bool,
+    boundmap: bool,
 }
 impl<'a> VisitMut for HofPass<'a> {
+    fn visit_block_mut(&mut self, b: &mut syn::Block) {
+        // (option `boundmap`) `let x = E.map(|p| B);` ==> `let __fjx_bN = E; let x = __fjx_bN.map(|p| B);` so that the bound
+        // being mapped has a name a proof can mention (evaluation order and result unchanged)
+        if self.boundmap {
+            let mut out = Vec::new();
+            for st in b.stmts.drain(..) {
+                if let Stmt::Local(l) = &st {
+                    if let Some(init) = &l.init {
+                        if let Expr::MethodCall(mc) = &*init.expr {
+                            if mc.method == "map" && mc.args.len() == 1 && matches!(mc.args[0], Expr::Closure(_)) && init.diverge.is_none() {
+                                self.counter += 1;
+                                let tmp = quote::format_ident!("__fjx_b{}", self.counter);
+                                let recv = &mc.receiver;
+                                out.push(parse_quote! { let #tmp = #recv; });
+                                let mut l2 = l.clone();
+                                let mut mc2 = mc.clone();
+                                mc2.receiver = Box::new(parse_quote! { #tmp });
+                                l2.init.as_mut().unwrap().expr = Box::new(Expr::MethodCall(mc2));
+                                out.push(Stmt::Local(l2));
+                                self.log.push("R-TMP receiver of Bound::map bound to a named temporary".into());
+                                continue;
+                            }
+                        }
+                    }
+                }
+                out.push(st);
+            }
+            b.stmts = out;
+        }
+        visit_mut::visit_block_mut(self, b);
+    }
     fn visit_expr_closure_mut(&mut self, c: &mut syn::ExprClosure) {
         self.closure_depth += 1;
         visit_mut::visit_expr_closure_mut(self, c);
@@ -504,6 +536,30 @@ impl<'a> VisitMut for HofPass<'a> {
                         };
                         *e = new;
                         self.log.push("R-HOF map_err(closure) beta-reduced".into());
+                    }
+                }
+            }
+        }
+        // (option `boundmap`: every `.map(..)` in this function is core::ops::Bound::map)
+        // E.map(|p| B) ==> match E { Bound::Included(p) => Bound::Included(B), Bound::Excluded(p) => Bound::Excluded(B), Bound::Unbounded => Bound::Unbounded }
+        if self.boundmap {
+            if let Expr::MethodCall(mc) = e {
+                if mc.method == "map" && mc.args.len() == 1 {
+                    if let Expr::Closure(cl) = &mc.args[0] {
+                        if cl.inputs.len() == 1 {
+                            let recv = &mc.receiver;
+                            let pat = &cl.inputs[0];
+                            let body = &cl.body;
+                            let new: Expr = parse_quote! {
+                                match (#recv) {
+                                    Bound::Included(#pat) => Bound::Included(#body),
+                                    Bound::Excluded(#pat) => Bound::Excluded(#body),
+                                    Bound::Unbounded => Bound::Unbounded,
+                                }
+                            };
+                            *e = new;
+                            self.log.push("R-HOF Bound::map beta-reduced (its definition in core::ops)".into());
+                        }
                     }
                 }
             }
@@ -1367,6 +1423,7 @@ fn rustfmt(src: &str) -> Option<String> {
 
 #[derive(Default, Clone)]
 struct ExtractSpec {
+    boundmap: bool,
     to_block_end: bool,
     no_loop_isolation: bool,
     file: String,
@@ -1697,7 +1754,7 @@ impl Unit {
             }
             _ => false,
         };
-        HofPass { log: &mut log, counter: 0, ret_is_option, closure_depth: 0, optmap: spec.optmap }.visit_block_mut(&mut block);
+        HofPass { log: &mut log, counter: 0, ret_is_option, closure_depth: 0, optmap: spec.optmap, boundmap: spec.boundmap }.visit_block_mut(&mut block);
         if self.range_shim {
             // R-RANGE: `..=e` IS `core::ops::RangeToInclusive { end: e }` and `..e` IS `core::ops::RangeTo { end: e }` (language
             // definition of range expressions); spelled out so that the unit's shim structs of the same name are used
@@ -2595,6 +2652,8 @@ impl Unit {
                                 spec.assoc.push((a.to_string(), t.replace('~', " ")));
                             } else if o == "no_loop_isolation" {
                                 spec.no_loop_isolation = true
+                            } else if o == "boundmap" {
+                                spec.boundmap = true
                             } else if o == "optmap" {
                                 spec.optmap = true
                             } else if let Some(n) = o.strip_prefix("until=") {
